@@ -194,6 +194,10 @@ macro_rules! generate_method_for_document_type {
         .map_err(Error::VerificationMethodConstructionError)?
         .to_owned();
 
+      // Keep a copy of the document so that a later failure can restore it exactly: removing the method again would
+      // also remove references to it that were present before (e.g. not yet resolvable ones).
+      let original_document: $t = document.clone();
+
       // Insert method into document and handle error upon failure.
       if let Err(error) = document
         .insert_method(method, scope)
@@ -209,7 +213,7 @@ macro_rules! generate_method_for_document_type {
         .map_err(Error::KeyIdStorageError)
       {
         // Remove the method from the document as it can no longer be used.
-        let _ = document.remove_method(&method_id);
+        *document = original_document;
         return Err(try_undo_key_generation(storage, &key_id, error).await);
       }
 
@@ -225,14 +229,21 @@ macro_rules! purge_method_for_document_type {
       K: JwkStorage,
       I: KeyIdStorage,
     {
-      let (method, scope) = document.remove_method_and_scope(id).ok_or(Error::MethodNotFound)?;
+      // Removing the method also removes every reference to it from the verification relationships, and reinserting
+      // it cannot bring those back. Keep a copy of the document to restore it exactly if the operation fails.
+      let original_document: $t = document.clone();
+      let Some((method, _scope)) = document.remove_method_and_scope(id) else {
+        // References to a method that is not part of the document have been removed as well.
+        *document = original_document;
+        return Err(Error::MethodNotFound);
+      };
 
       // Obtain method digest and handle error if this operation fails.
       let method_digest: MethodDigest = match MethodDigest::new(&method).map_err(Error::MethodDigestConstructionError) {
         Ok(digest) => digest,
         Err(error) => {
-          // Revert state by reinserting the method before returning the error.
-          let _ = document.insert_method(method, scope);
+          // Revert state before returning the error.
+          *document = original_document;
           return Err(error);
         }
       };
@@ -244,8 +255,8 @@ macro_rules! purge_method_for_document_type {
       {
         Ok(key_id) => key_id,
         Err(error) => {
-          // Reinsert method before returning.
-          let _ = document.insert_method(method, scope);
+          // Restore the document before returning.
+          *document = original_document;
           return Err(error);
         }
       };
@@ -284,15 +295,15 @@ macro_rules! purge_method_for_document_type {
               undo_error: Some(Box::new(key_id_insertion_error)),
             })
           } else {
-            // KeyId reinsertion succeeded. Now reinsert method.
-            let _ = document.insert_method(method, scope);
+            // KeyId reinsertion succeeded. Now restore the document.
+            *document = original_document;
             Err(Error::KeyStorageError(key_deletion_error))
           }
         }
         (Err(_key_deletion_error), Err(key_id_deletion_error)) => {
           // We assume this means nothing got deleted. Reinsert the method and return one of the errors (perhaps
           // key_id_deletion_error as we really expect the key id storage to work as expected at this point).
-          let _ = document.insert_method(method, scope);
+          *document = original_document;
           Err(Error::KeyIdStorageError(key_id_deletion_error))
         }
       }
